@@ -537,6 +537,8 @@ class FnTranslator(object):
                     return self.lift(parts, lambda x: x[0], "int")
                 if tys == ["char"]:
                     return self.lift_mon(parts, lambda x: "py_int_char %s" % x[0], "int")
+                if tys == ["bytes"]:
+                    return self.lift_mon(parts, lambda x: "py_int_bytes %s" % x[0], "int")
                 if tys == ["str", "int"] and self.is_lit_int(e.args[1]) and e.args[1].value == 16:
                     return self.lift_mon(parts[:1], lambda x: "py_int_hex %s" % x[0], "int")
                 raise Unsupported("int() of %s" % tys, e)
@@ -573,6 +575,8 @@ class FnTranslator(object):
                     if tys[0] in ("intseq", "list_int"):
                         return self.lift_mon(parts, lambda x: "py_bytearray %s" % x[0], "bytearray")
                 raise Unsupported("bytearray() of %s" % tys, e)
+            if nm == "bytes" and len(args) == 1 and tys[0] in ("bytes", "bytearray"):
+                return self.lift(parts, lambda x: x[0], "bytes")      # copy of a byte string
             if nm == "tuple" and len(args) == 1 and tys[0] in ("list_val", "list_int"):
                 return self.lift(parts, lambda x: x[0], {"list_val": "tuple_val", "list_int": "list_int"}[tys[0]])
             raise Unsupported("call of %s on %s" % (nm, tys), e)
@@ -686,6 +690,8 @@ class FnTranslator(object):
             if isinstance(v, ast.Call) and isinstance(v.func, ast.Attribute) and isinstance(v.func.value, ast.Name) \
                     and v.func.value.id in env:
                 return self.mutator(s, v, env, cont, mon)
+            if self.is_console_log(v, env):
+                return cont(env)      # console output is not modelled (no effect on results)
             raise Unsupported("expression statement", s)
         if isinstance(s, ast.Assign):
             if len(s.targets) != 1:
@@ -738,6 +744,24 @@ class FnTranslator(object):
         if isinstance(s, ast.While):
             return self.while_stmt(s, env, cont, mon)
         raise Unsupported("statement", s)
+
+    def is_console_log(self, v, env):
+        """console.<level>("<literal>".format(<pure int expressions>))  -- cannot raise, result unused"""
+        if not (isinstance(v, ast.Call) and isinstance(v.func, ast.Attribute) and isinstance(v.func.value, ast.Name)
+                and v.func.value.id == "console" and "console" not in env and not v.keywords and len(v.args) == 1
+                and v.func.attr in ("profuse", "verbose", "concise", "terse")):
+            return False
+        a = v.args[0]
+        if isinstance(a, ast.Constant) and isinstance(a.value, str):
+            return True
+        if not (isinstance(a, ast.Call) and isinstance(a.func, ast.Attribute) and a.func.attr == "format"
+                and isinstance(a.func.value, ast.Constant) and isinstance(a.func.value.value, str) and not a.keywords):
+            return False
+        for x in a.args:
+            pre, _, ty = self.expr(x, env)
+            if pre or ty not in ("int", "bool"):
+                return False
+        return True
 
     def hoist_pop(self, value, env, node):
         """value contains `<name>.pop()` at most once, evaluated unconditionally and after
